@@ -512,6 +512,13 @@ def jobs(tier: str, seed: int) -> list[dict]:
         for cat in cats:
             if rules.get('opening') and cat in ('HIGH_CARD', 'ONE_PAIR'):
                 for size in rules['cards']:
+                    if cat == 'HIGH_CARD' and size >= 4:
+                        # the largest class (4 distinct ranks, ~700 keys per suitedness): split by the top rank of hand a
+                        for sub in range(len(rules['ranks'])):
+                            out.append(dict(name=f'L1/{lk}/pairs/{cat}/size{size}/top{sub}', kind='native', fn='smt_query',
+                                            params=dict(lookup=lk, kind='pairs', cat=cat, size=size, sub=sub, budget_s=B,
+                                                        second_solver=tier == 'thorough'), budget_s=B))
+                        continue
                     out.append(dict(name=f'L1/{lk}/pairs/{cat}/size{size}', kind='native', fn='smt_query',
                                     params=dict(lookup=lk, kind='pairs', cat=cat, size=size, budget_s=B, second_solver=tier == 'thorough'),
                                     budget_s=B))
